@@ -28,7 +28,7 @@ import (
 
 const (
 	avoidAlias = "alias_across_snapshot"    // C09-F01: a tree-shaped document cannot carry aliasing
-	avoidDag   = "shared_reported_as_cycle" // C09-F02: ToJSON reports a shared (acyclic) container as a cycle
+	avoidDag   = "shared_reported_as_cycle" // C09-F02 (fixed 78e6f2b): ToJSON reported a shared (acyclic) container as a cycle; the switch is honoured should it return
 	avoidMacro = "macro_before_snapshot"    // C09-F04: dice macros in force at a definition are not part of the snapshot
 	sigMacro   = "class:" + avoidMacro
 	sigAlias   = "class:" + avoidAlias
@@ -541,7 +541,7 @@ func checkCase(c Case, s *rt.Section) (*rt.Failure, info) {
 			}
 			sig := "c09:follow/" + x.what
 			if x.what == "ops" {
-				// more operations after the restore (C09-F03: +1 per evaluation of a restored body) or fewer
+				// more operations after the restore (C09-F03, fixed 84c865f: +1 per evaluation of a restored body) or fewer
 				sig = "c09:follow/ops-fewer"
 				if d := ob.ops - oa.ops; d > 0 && d <= oa.ops/100+1 {
 					sig = "c09:follow/ops-more"
